@@ -36,6 +36,12 @@ Tie: translator (T) + correspondence (C).
   data.  The engine really runs where the property says the specification is valid, and is intercepted elsewhere.  Model
   `Audit.run` (state machine over `SOp`), theorems `C12.reevaluation_like_first / reevaluation_refused / reevaluation_accepted /
   edited_choice_refused`.
+* nest NAMES (follow-up): names are an input dimension of the nest audit - distinct, all unnamed (defaulted `nest_<position>`), the
+  same name given twice / to all, a given name equal to the default name of another position, names inherited from an earlier
+  specification through re-use of the nest objects, old tuple syntax - with an overlap injected between ANY pair; entry points
+  `check_partition`, `models.lognested / nested / lognested_mev_mu / get_mev_for_nested`; the oracle looks at the alternatives only;
+  model `Audit.nestAuditNamed` / `assignNames` (also the names borne after the constructor), theorems `C12.nest_names_irrelevant`,
+  `named_overlap_refused`.
 * nests: `Audit.nestAudit` (constructor + all ordered pairs of different nests) against `NestsForNestedLogit` /
   `models.lognested`; the same groups as cross-nested nests (`NestsForCrossNestedLogit`, `check_validity`, `models.logcnl`).
 """
@@ -69,7 +75,8 @@ MANIFEST = dict(
     '(C12.choice_row_refused, choice_row_refused_anywhere, choice_rows_sound; dedicated_test_misses_first_row shows that the audit\'s own '
     'argwhere(...).any() test is blind to row 0 and the refusal rests on the availability lookup); LogLogit.get_value refuses such a choice '
     '(get_value_choice_refused); nests sharing an alternative are refused wherever they sit in the tuple, alternatives outside the choice set too, '
-    'disjoint nests never (C12.nests_refused, nests_sound); histories on the same objects: an evaluation leaves nothing behind and every later '
+    'disjoint nests never, and the verdict depends on the alternatives only, never on the names of the nests (C12.nests_refused, nests_sound, '
+    'nest_names_irrelevant, named_overlap_refused); histories on the same objects: an evaluation leaves nothing behind and every later '
     'evaluation is judged like a first evaluation of the current formula on the current data (C12.evaluations_leave_no_trace, '
     'reevaluation_like_first, reevaluation_refused, reevaluation_accepted, edited_choice_refused - induction over List SOp). '
     'Tie: translator + exhaustive (class, slot) fault planting on both entry paths with the engine call intercepted; a names stream over nine entry '
@@ -2158,6 +2165,127 @@ def nests_check(ctx, res, rng):
                     res.violate(f'models.lognested refuses {name} nests with {core.exc_kind(e)}', case, core.exc_kind(e), 'BiogemeError', where='models.nested')
 
 
+NEST_NAME_SCHEMES = ['distinct', 'all_none', 'same_pair', 'all_same', 'default_collision', 'inherited', 'old_tuple']
+NEST_ENTRIES = ['check_partition', 'lognested', 'nested', 'lognested_mev_mu', 'get_mev_for_nested']
+
+
+def gen_named_nests(rng):
+    """2-4 nests over {1..6} (9 is outside the choice set), an overlap injected between ANY pair in half of the cases;
+    names by scheme.  Returns the abstract case"""
+    k = rng.randint(2, 4)
+    pool = [1, 2, 3, 4, 5, 6]
+    rng.shuffle(pool)
+    cuts = sorted(rng.sample(range(1, 6), k - 1)) + [rng.randint(5, 6)]
+    groups, prev = [], 0
+    for c in cuts:
+        groups.append(sorted(pool[prev:c]) or [pool[0]])
+        prev = c
+    if rng.random() < 0.5:
+        i, j = rng.sample(range(k), 2)
+        groups[j] = sorted(set(groups[j]) | {rng.choice(groups[i])})
+    if rng.random() < 0.1:
+        groups[rng.randrange(k)].append(9)
+    scheme = rng.choice(NEST_NAME_SCHEMES)
+    names = [None] * k
+    first_spec = None
+    if scheme == 'distinct':
+        names = [f'n{i}' for i in range(k)]
+    elif scheme == 'same_pair':
+        names = [f'n{i}' for i in range(k)]
+        i, j = rng.sample(range(k), 2)
+        names[j] = names[i]
+    elif scheme == 'all_same':
+        names = ['N'] * k
+    elif scheme == 'default_collision':
+        p, q = rng.sample(range(k), 2)
+        names[p] = f'nest_{q + 1}'           # the name Nests.__init__ gives to the unnamed nest at position q
+    elif scheme == 'inherited':
+        # the unnamed nest objects are first used in another specification, in another order: they keep those names
+        first_spec = rng.sample(range(k), rng.randint(1, k))
+    return {'stream': 'nestnames', 'groups': groups, 'scheme': scheme, 'names': names, 'first_spec': first_spec, 'entry': rng.choice(NEST_ENTRIES)}
+
+
+def run_named_nests(case):
+    """(verdict, names borne by the nests after the constructor)"""
+    from biogeme.nests import OneNestForNestedLogit, NestsForNestedLogit
+    from biogeme.expressions import Beta
+    import biogeme.models as models
+
+    cs = [1, 2, 3, 4, 5, 6]
+    mu = Beta('mu', 1.5, 1.0, None, 0)
+    V = {i: Beta(f'a{i}', 0.0, None, None, 0) for i in cs}
+    try:
+        if case['scheme'] == 'old_tuple':
+            nests = NestsForNestedLogit(choice_set=cs, tuple_of_nests=tuple((mu, list(g)) for g in case['groups']))
+        else:
+            objs = [OneNestForNestedLogit(nest_param=mu, list_of_alternatives=list(g), name=n) for g, n in zip(case['groups'], case['names'])]
+            if case['first_spec']:
+                try:
+                    NestsForNestedLogit(choice_set=cs + [9], tuple_of_nests=tuple(objs[i] for i in case['first_spec']))
+                except Exception:  # noqa: BLE001
+                    pass
+            nests = NestsForNestedLogit(choice_set=cs, tuple_of_nests=tuple(objs))
+        borne = [n.name for n in nests.tuple_of_nests]
+        e = case['entry']
+        if e == 'check_partition':
+            ok, msg = nests.check_partition()
+            return ('ok' if ok else 'refused'), borne
+        if e == 'lognested':
+            models.lognested(V, None, nests, 1)
+        elif e == 'nested':
+            models.nested(V, None, nests, 1)
+        elif e == 'lognested_mev_mu':
+            models.lognested_mev_mu(V, None, nests, 1, Beta('mu_top', 1.0, None, None, 1))
+        elif e == 'get_mev_for_nested':
+            models.get_mev_for_nested(V, None, nests)
+        else:
+            raise ValueError(e)
+        return 'ok', borne
+    except Exception as ex:  # noqa: BLE001
+        return ('refused' if core.exc_kind(ex) == 'BiogemeError' else core.exc_kind(ex)), None
+
+
+NESTNAMES_CORPUS = [
+    {'stream': 'nestnames', 'groups': [[1, 2], [2, 3], [4, 5, 6]], 'scheme': 'same_pair', 'names': ['A', 'B', 'A'], 'first_spec': None, 'entry': 'check_partition'},
+    {'stream': 'nestnames', 'groups': [[1, 2], [3, 4], [5, 6, 1]], 'scheme': 'default_collision', 'names': ['nest_3', None, None], 'first_spec': None, 'entry': 'lognested'},
+    {'stream': 'nestnames', 'groups': [[1, 2], [3, 4], [5, 6, 2]], 'scheme': 'inherited', 'names': [None, None, None], 'first_spec': [2], 'entry': 'nested'},
+    {'stream': 'nestnames', 'groups': [[1, 2, 3], [4, 5, 6]], 'scheme': 'all_same', 'names': ['N', 'N'], 'first_spec': None, 'entry': 'lognested_mev_mu'},
+]
+
+
+def judge_named_nests(ctx, res, case):
+    cs = [1, 2, 3, 4, 5, 6]
+    res.count(case, nontrivial=True)
+    res.tally(f'nestnames:{case["scheme"]}:{case["entry"]}')
+    got, borne = run_named_nests(case)
+    flat = [a for g in case['groups'] for a in g]
+    # from the statement: nests that overlap or leave the choice set are refused - the alternatives decide, not the names
+    exp = 'ok' if (len(flat) == len(set(flat)) and all(a in cs for a in flat)) else 'refused'
+    if got != exp:
+        res.violate(f'nest audit: nests {case["groups"]} named by scheme {case["scheme"]} give {got} ({case["entry"]})', case, got, exp, where=f'nestnames:{case["entry"]}')
+    if case['first_spec'] or case['scheme'] == 'old_tuple':
+        # names: inherited ones are whatever the first specification gave (the model is asked with the names the objects
+        # bore when the second specification was built: not tracked) - the verdict alone is compared
+        names = None
+    else:
+        names = case['names']
+
+    def cb(ans, got=got, borne=borne, case=case, names=names):
+        if 'error' in ans:
+            res.diverge(f'model: {ans["error"]}', case, ans, got, where=f'nestnames:{case["entry"]}')
+        elif (ans['verdict'] == 'accepted') != (got == 'ok'):
+            res.diverge('named nests: model vs library', case, ans['verdict'], got, where=f'nestnames:{case["entry"]}')
+        elif names is not None and borne is not None and ans.get('names') != borne:
+            res.diverge('names given by Nests.__init__: model vs library', case, ans.get('names'), borne, where=f'nestnames:{case["entry"]}')
+
+    ctx.batch.add({'op': 'nests', 'choice_set': cs, 'nests': case['groups'], 'names': names if names is not None else [None] * len(case['groups'])}, cb)
+
+
+def nest_names_check(ctx, res, rng):
+    for case in [dict(c) for c in NESTNAMES_CORPUS] + [gen_named_nests(rng) for _ in range(ctx.n(80, 800))]:
+        judge_named_nests(ctx, res, case)
+
+
 def missing_cases(code):
     """abstract formulas (exprgen format) on rows where column m holds the code; (case, reads_m)"""
     def base(nodes, root_nodes):
@@ -2378,6 +2506,7 @@ def check(ctx) -> Result:
     flags_check(ctx, res)
     data_check(ctx, res)
     nests_check(ctx, res, rng)
+    nest_names_check(ctx, res, rng)
     cells_check(ctx, res)
     getvalue_check(ctx, res, rng)
     lap('flags/data/nests/cells/getvalue')
@@ -2456,6 +2585,8 @@ def replay(ctx, obj):
     elif case.get('stream') in ('session', 'rows'):
         c = {k: case[k] for k in ('ast', 'alts', 'choices', 'unavail', 'ops')}
         judge_session(ctx, r, c, run_plantings([c], worker='session_worker')[0], stream=case['stream'])
+    elif case.get('stream') == 'nestnames':
+        judge_named_nests(ctx, r, {k: case[k] for k in ('stream', 'groups', 'scheme', 'names', 'first_spec', 'entry')})
     elif case.get('stream') == 'cells':
         cells_check(ctx, r)
         r.violations = [v for v in r.violations if all(v['case'].get(k) == case.get(k) for k in ('rows', 'pos', 'fault', 'col', 'entry'))]
